@@ -874,7 +874,13 @@ impl Model for ArenaModel {
                 }
             }
             Profile::Core | Profile::AllocApi => vec![Answer::Refuse, Answer::RefuseRest, Answer::GrantV(5), Answer::GrantV(12)],
-            _ => vec![Answer::Refuse, Answer::RefuseRest, Answer::GrantV(12)],
+            _ => {
+                if self.thorough {
+                    vec![Answer::Refuse, Answer::RefuseRest, Answer::RefuseAbove(9), Answer::RefuseAbove(12), Answer::RefuseAbove(16), Answer::GrantV(12)]
+                } else {
+                    vec![Answer::Refuse, Answer::RefuseRest, Answer::RefuseAbove(12), Answer::GrantV(12)]
+                }
+            }
         }
     }
 
